@@ -122,9 +122,16 @@ func c17Batch(t *rapid.T, regime int) C17Batch {
 	return b
 }
 
-func c17Gen(t *rapid.T) C17Case {
+func c17Gen(t *rapid.T) C17Case { return c17GenKind(t, "") }
+
+// c17GenKind: kind "" draws the kind of collection; "hash" / "set" fix it (HSCAN is also part of C04's command
+// list and SSCAN of C05's, so those two checks run the same search restricted to their command).
+func c17GenKind(t *rapid.T, kind string) C17Case {
 	c := C17Case{}
-	c.Kind = pick(t, "kind", "keys", "hash", "set")
+	c.Kind = kind
+	if kind == "" {
+		c.Kind = pick(t, "kind", "keys", "hash", "set")
+	}
 	c.Salt = pick(t, "salt", c17GoodSalts()...)
 	regime := rapid.IntRange(0, 2).Draw(t, "regime")
 	minStable := 8
@@ -1007,4 +1014,13 @@ func c17BRun(c C17BCase, st *kit.Stats) error {
 
 func TestC17B(t *testing.T) {
 	kit.Check(t, kit.Prop[C17BCase]{ID: "C17B", Gen: c17BGen, Run: c17BRun})
+}
+
+// TestC04Scan / TestC05Scan: the C17 search over hashes (HSCAN) and sets (SSCAN) only, run as part of C04 and C05.
+func TestC04Scan(t *testing.T) {
+	kit.Check(t, kit.Prop[C17Case]{ID: "C04Scan", Gen: func(t *rapid.T) C17Case { return c17GenKind(t, "hash") }, Run: c17Run})
+}
+
+func TestC05Scan(t *testing.T) {
+	kit.Check(t, kit.Prop[C17Case]{ID: "C05Scan", Gen: func(t *rapid.T) C17Case { return c17GenKind(t, "set") }, Run: c17Run})
 }
